@@ -24,7 +24,7 @@ Simple == {[k |-> "id", n |-> "i", arg |-> ""], [k |-> "class", n |-> "c", arg |
 Heads  == {[k |-> "type", n |-> "a", arg |-> ""], [k |-> "universal", n |-> "*", arg |-> ""]}
 Pels   == {[k |-> "pel", n |-> "::first-line", arg |-> ""], [k |-> "pel", n |-> ":before", arg |-> ""], [k |-> "pel", n |-> "::after", arg |-> ""]}
 NotArgs == Heads \cup {[k |-> "id", n |-> "i", arg |-> ""], [k |-> "class", n |-> "c", arg |-> ""], [k |-> "attr", n |-> "=", arg |-> ""],
-                       [k |-> "pclass", n |-> "hover", arg |-> ""]}
+                       [k |-> "pclass", n |-> "hover", arg |-> ""]} \cup Pels      \* (cssutils also takes a pseudo-element as argument: it counts)
 Nots   == {[k |-> "not", n |-> "not", arg |-> x] : x \in NotArgs}
 Combs  == {[k |-> "comb", n |-> c, arg |-> ""] : c \in {" ", ">", "+", "~"}}
 Compounds == Cardinality({i \in 1..Len(parts) : parts[i].k = "comb"}) + 1
